@@ -519,3 +519,17 @@ package meta
 //@   trusted_assigns si
 //@ func (*DownSamplePolicyInfo).Unmarshal
 //@   trusted_assigns d
+
+// Every OTHER measurement of the policy (also one that is marked deleted but not yet dropped) constrains the
+// sharding type: the scan skips a measurement only if it is the measurement being created. (CreateShardGroup
+// picks an arbitrary measurement of the policy, so mixed sharding types make replicas diverge.)
+//@ func (*RetentionPolicyInfo).validMeasurementShardType
+//@   requires rpi != nil
+//@   requires forall k string :: (k in rpi.Measurements) ==> rpi.Measurements[k] != nil
+//@   ensures final(msti) == nil ==> (forall k string :: (k in rpi.Measurements) ==> origin(rpi.Measurements[k].Name) == mstName)
+//@   assigns nothing
+//@   loop 1
+//@     invariant msti == nil && (forall k string :: visited(k) ==> origin(rpi.Measurements[k].Name) == mstName)
+//@ func ErrShardingTypeNotEqual
+//@   ensures result != nil
+//@   trusted_assigns nothing
